@@ -134,6 +134,13 @@ impl LimitedBatchCoalescer {
         Ok(())
     }
 
+    /// Complete the current buffered batch without finishing the coalescer:
+    /// more batches can be pushed afterwards.
+    pub fn flush(&mut self) -> Result<()> {
+        self.inner.finish_buffered_batch()?;
+        Ok(())
+    }
+
     pub(crate) fn is_finished(&self) -> bool {
         self.finished
     }
